@@ -139,10 +139,13 @@ def _aklist(x):
 def _beh(b):
     if b is None:
         return "beh:None"
+    import awkward
     import vector.backends.awkward as vaw
 
     if b is vaw.behavior:
         return "beh:vector"
+    if b is awkward.behavior:
+        return "beh:global-registry"  # its content is process-wide state (I1), not operand state
     try:
         return f"beh:dict:{len(b)}:{hashlib.sha256(repr(sorted(map(repr, b.keys()))).encode()).hexdigest()[:8]}"
     except Exception:
